@@ -39,6 +39,33 @@ def val_json(v):
         return {'inf': True}
     return {'n': core.q(v)}
 
+def is_real(x) -> bool:
+    """a real number of any Python / numpy type (int, float, np.int64, np.float32, …), not a bool, not complex"""
+    import numbers
+    return isinstance(x, (numbers.Real, np.integer, np.floating)) and not isinstance(x, (bool, np.bool_))
+
+NP_TYPES = {'np.float64': np.float64, 'np.float32': np.float32, 'np.int64': np.int64, 'np.int32': np.int32, 'np.complex128': np.complex128}
+
+def tag_types(descs):
+    """component descriptions with numpy-typed values made JSON-safe *and* type-preserving (for replay files):
+    np.int64(3) ↦ {'__np__': 'np.int64', 'v': 3}; plain Python ints / floats / complex are kept by json as they are"""
+    def enc(v):
+        for name, ty in NP_TYPES.items():
+            if type(v) is ty:
+                return {'__np__': name, 'v': [float(v.real), float(v.imag)] if name == 'np.complex128' else v.item()}
+        if isinstance(v, np.generic):
+            return {'__np__': 'np.float64', 'v': float(v)}
+        return v
+    return [dict(d, args={k: enc(v) for k, v in d['args'].items()}) for d in descs]
+
+def untag_types(descs):
+    def dec(v):
+        if isinstance(v, dict) and set(v) == {'__np__', 'v'}:
+            ty = NP_TYPES[v['__np__']]
+            return ty(complex(*v['v'])) if v['__np__'] == 'np.complex128' else ty(v['v'])
+        return v
+    return [dict(d, args={k: dec(v) for k, v in d['args'].items()}) for d in descs]
+
 def pairs_json(d: dict):
     return [[k, val_json(v)] for k, v in d.items()]
 
@@ -92,8 +119,10 @@ def params_for(components, w):
     harm = []
     for c in components:
         v = c.value
-        if isinstance(v.get('phi'), (int, float)):
+        if 'phi' in v and is_real(v['phi']):            # whatever numeric type: the code calls float(value['phi'])
             phis.append(float(v['phi']))
+        elif 'phi' in v and not isinstance(v['phi'], str):
+            raise TypeError(f"harness: phase of unsupported type {type(v['phi']).__name__} — the trig table would miss it")
         if c.type in ('periodic_voltage_source', 'periodic_current_source'):
             try:
                 w0 = float(v['w']); A = float(v['V' if c.type == 'periodic_voltage_source' else 'I']); phi = float(v['phi'])
